@@ -2,7 +2,7 @@
  * SHARED read-only inputs and PRIVATE outputs, released together by a
  * barrier for every burst; each thread logs Begin/End of every call with a
  * per-thread sequence number and the complete result (length + digest +
- * head bytes); thread 0's sequential pre-pass logs the "alone" results.
+ * head bytes); a sequential pass AFTER the threads logs the "alone" results.
  *
  *   drv_threads <nthreads> <rounds> <out-prefix>
  *
@@ -176,6 +176,17 @@ static void log_call(int t, long seq, const char *phase, int call, int in, const
     ev_end();
 }
 
+/* spin barrier: releases all threads within tens of nanoseconds of each other
+ * (a futex wake-up staggers them by microseconds), so that the FIRST call of
+ * every codec in the process is made by all threads at once: lazily built
+ * shared state is caught while it is being built */
+static long spin_arrived;
+static void spin_barrier(long generation) {
+    __atomic_add_fetch(&spin_arrived, 1, __ATOMIC_SEQ_CST);
+    while (__atomic_load_n(&spin_arrived, __ATOMIC_SEQ_CST) < generation * nthreads) {
+    }
+}
+
 static void *worker(void *arg) {
     int t = (int)(intptr_t)arg;
     char path[512];
@@ -183,6 +194,16 @@ static void *worker(void *arg) {
     tr_tls = fopen(path, "w");
     uint8_t *out = malloc(1 << 16); /* private output */
     long seq = 0;
+    /* cold start: no library call has been made in this process yet; every
+     * codec's first call is made by all threads simultaneously, on inputs
+     * that differ per thread */
+    for (size_t c = 0; c < NCALLS; c++) {
+        int in = (t + (int)c) % NIN;
+        spin_barrier((long)c + 1);
+        log_call(t, ++seq, "Begin", (int)c, in, NULL, 0);
+        size_t n = CALLS[c].fn(in, out, 1 << 16);
+        log_call(t, ++seq, "End", (int)c, in, out, n);
+    }
     for (int r = 0; r < rounds; r++) {
         pthread_barrier_wait(&bar); /* release the burst together */
         for (size_t c = 0; c < NCALLS; c++) {
@@ -219,7 +240,12 @@ int main(int argc, char **argv) {
         }
     }
     for (int i = 0; i < N; i++) DIN[i] = 20.0 + (double)(rng_u64() % 1000) / 37.0;
-    /* sequential reference: every (call, input) run alone */
+    pthread_barrier_init(&bar, NULL, (unsigned)nthreads);
+    pthread_t th[64];
+    for (int t = 0; t < nthreads; t++) pthread_create(&th[t], NULL, worker, (void *)(intptr_t)t);
+    for (int t = 0; t < nthreads; t++) pthread_join(th[t], NULL);
+    /* sequential reference, AFTER the threads: a warm-up before them would
+     * finish any lazy initialisation single-threaded and hide it */
     char path[512];
     snprintf(path, sizeof(path), "%s-alone.ndjson", prefix);
     tr_tls = fopen(path, "w");
@@ -233,9 +259,5 @@ int main(int argc, char **argv) {
     }
     fclose(tr_tls);
     free(out);
-    pthread_barrier_init(&bar, NULL, (unsigned)nthreads);
-    pthread_t th[64];
-    for (int t = 0; t < nthreads; t++) pthread_create(&th[t], NULL, worker, (void *)(intptr_t)t);
-    for (int t = 0; t < nthreads; t++) pthread_join(th[t], NULL);
     return 0;
 }
